@@ -1,4 +1,4 @@
 From Coq Require Import ZArith NArith.
-From LV Require Import Conn.ConnModel.
+From LV Require Import Gen.GenH1 Conn.ConnModel.
 Require Import ExtrOcamlBasic.
-Extraction "model.ml" seconds sweep sstep Z.of_N N.of_nat Nat.pred.
+Extraction "model.ml" seconds sweep sstep Z.of_N N.of_nat Nat.pred HTTP_LINGER_TIMEOUT.
